@@ -1668,9 +1668,14 @@ class FourierTransformInverse(FourierTransformBase):
             fft_arr /= np.prod(np.take(self.domain.shape, self.axes))
 
         # Post-processing in IFT = pre-processing in FT. In-place for
-        # C2C and HC2R. For C2R, this is out-of-place and discards the
-        # imaginary part.
-        self._postprocess(fft_arr, out=out)
+        # C2C and HC2R. For C2R, it is done in the complex array (the
+        # factors are complex for axes without shift), then the imaginary
+        # part is discarded.
+        if self.range.field == RealNumbers() and not self.halfcomplex:
+            self._postprocess(fft_arr, out=fft_arr)
+            out[:] = fft_arr.real
+        else:
+            self._postprocess(fft_arr, out=out)
         return out
 
     @property
